@@ -414,7 +414,6 @@ func isAllocValue(v ssa.Value) bool {
 	return ok
 }
 
-
 // c17StatAnswers: FS.Stat answers, on success, with what fileNode.Stat() says about the node the
 // resolver returned — the method that turns a deleted (whiteout) chain end into fs.ErrNotExist. A
 // whiteout test made on the node found by name, or returning the resolved node itself as FileInfo,
